@@ -211,6 +211,23 @@ class LayoutGen:
         elif form == "dir":
             rt, re_ = self.pick_ref()
             deps.append(re_.id)
+            if shape in ("rect", "box") and r.random() < 0.25:
+                # a size delta on the element being placed: 'beside, centred' is about its final size
+                a, b = self.g(-1, 8), self.g(-1, 8)
+                a, b = max(a, -w / 2), max(b, -h / 2)
+                kk = r.random()
+                if kk < 0.4:
+                    size_attrs = size_attrs + [("dw", fmt(a)), ("dh", fmt(b))]
+                elif kk < 0.7:
+                    size_attrs = size_attrs + [("dwh", "%s %s" % (fmt(a), fmt(b)))]
+                elif kk < 0.85:
+                    size_attrs = size_attrs + [("dw", fmt(a))]
+                    b = F(0)
+                else:
+                    size_attrs = size_attrs + [("dh", fmt(b))]
+                    a = F(0)
+                w, h = w + a, h + b
+                feats.add("dir.size-delta")
             d = r.choice(DIRS)
             gk = r.random()
             gap = F(0) if gk < 0.3 else self.g(-6, 10)
